@@ -227,6 +227,9 @@ def shuffle_masks(n, rnd, nrandom, per128, full=True):
     add("zip_lo", [(i // 2) + n * (i % 2) for i in range(n)])
     add("zip_hi", [n // 2 + (i // 2) + n * (i % 2) for i in range(n)])
     add("select_alt", [i + n * (i % 2) for i in range(n)])
+    # shapes a zip detector could mistake for zip_lo / zip_hi: pairs (p, n + p) at even positions p
+    add("zip_lookalike_lo", [i if i % 2 == 0 else n + i - 1 for i in range(n)])
+    add("zip_lookalike_hi", [(n // 2 + i) % n if i % 2 == 0 else n + (n // 2 + i - 1) % n for i in range(n)])
     add("select_halves", [i + n * (1 if i >= n // 2 else 0) for i in range(n)])
     base = list(fam)
     for name, m in base:  # one-off neighbours of every detector pattern
